@@ -85,6 +85,16 @@ def bylevel_rules(ctx):
             norm(env.get("cidx")) == "self.cells[lv]['indexes'][output[3]]"
         resets = [n for n in lv[0].body if isinstance(n, ast.Assign) and norm(n.targets[0]) == norm(guard.test.comparators[0])]
         fp_ok = fp_ok and len(resets) == 1
+    if guard is not None:
+        # the guard limits the *listing* only: the planes of every box result are pasted whether or not its footprint
+        # was listed already (the second of two boxes stacked along the normal carries the other side of the plane)
+        pasted = [norm(t.targets[0])[:40] for t in ast.walk(guard) if isinstance(t, ast.Assign)
+                  and isinstance(t.targets[0], ast.Subscript) and norm(t.targets[0]).startswith(("left[", "right["))]
+        ctx.check(not pasted, f"{P}.FOOTPRINT-ONCE", site,
+                  "the footprint guard covers the box listing only; every result's planes are pasted",
+                  f"the footprint guard also skips pasting the result's planes ({pasted[:2]}): for two boxes stacked along "
+                  f"the normal the second result (the other side of the plane) is dropped and the slice interpolates "
+                  f"against uninitialised memory", key="guard-scope", where=loc(fi, guard), semantic=True)
     ctx.check(fp_ok, f"{P}.FOOTPRINT-ONCE", site,
               "a box id is listed for the level only if its in-plane index footprint was not listed yet (per level)",
               "every box result is listed: two boxes stacked along the normal (both read when the plane is next to their "
